@@ -53,6 +53,11 @@ type vPeer struct {
 	wireCtxMD []metadata.MD  // outgoing metadata of every stream created
 	arrived   []*vArrived    // written messages not yet answered
 	delivered map[uint64]int // replies released per message id
+	// behave, if set, is the scripted server behaviour: called in the writing goroutine right
+	// after a message was written (reply / error reply / duplicate / hold / break ...). A reply
+	// placed in the stream's inbox at once is as general as one arriving later: the only
+	// observer of its arrival is the receiver goroutine, whose RecvMsg is scheduled freely.
+	behave func(p *vPeer, a *vArrived)
 }
 
 type vArrived struct {
@@ -191,8 +196,15 @@ func (s *vCliStream) SendMsg(m interface{}) error {
 		return vErrBroken
 	}
 	s.peer.wire = append(s.peer.wire, msg)
-	s.peer.arrived = append(s.peer.arrived, &vArrived{st: s, msg: msg})
+	a := &vArrived{st: s, msg: msg}
+	behave := s.peer.behave
+	if behave == nil {
+		s.peer.arrived = append(s.peer.arrived, a)
+	}
 	vAtomicEnd()
+	if behave != nil {
+		behave(s.peer, a)
+	}
 	s.sending = false
 	return nil
 }
@@ -345,5 +357,9 @@ func vMixed(nFull, nThin int, up []bool, opts ...ManagerOption) *vWorld {
 
 // vStamp is the reply the puppet node produces for a message.
 func vStamp(p *vPeer, a *vArrived, ser int) *vMsg {
-	return &vMsg{tok: 1000 + int(p.id), node: p.id, call: a.msg.Metadata.MessageID, ser: ser}
+	m := &vMsg{tok: 1000 + int(p.id), node: p.id, call: a.msg.Metadata.MessageID, ser: ser}
+	if r, ok := a.msg.Message.(*vMsg); ok && r != nil {
+		m.reqTok = r.tok
+	}
+	return m
 }
